@@ -99,7 +99,7 @@ func (c *Ctx) Thorough() bool { return c.Tier == "thorough" }
 // (race detector, ASan): such workers take a reduced share of the randomised workloads.
 func (c *Ctx) Slow() bool {
 	switch c.Flavour {
-	case "race", "asan", "yield", "go126-race", "checkptr":
+	case "race", "asan", "yield", "go126-race", "checkptr", "gcstress":
 		return true
 	}
 	return false
